@@ -88,6 +88,33 @@ pub fn keypaths(kp: &[KeyPath]) -> String {
     crate::ops_access::show_keypath(kp)
 }
 
+const DELIMS: &[u8] = b" \t\n\r&,.:{}[]()?@$|<>!=+-*/%\"'\\";
+
+fn raw_needs_quoting(s: &str) -> bool {
+    s.is_empty() || s.bytes().any(|b| DELIMS.contains(&b))
+}
+fn quoted_needs_escape(s: &str) -> bool {
+    s.bytes().any(|b| b == b'"' || b == b'\\')
+}
+fn paths_need_quoting(ps: &[Path]) -> bool {
+    ps.iter().any(|p| match p {
+        Path::DotField(s) | Path::ColonField(s) => raw_needs_quoting(s),
+        Path::ObjectField(s) => quoted_needs_escape(s),
+        Path::FilterExpr(e) | Path::Predicate(e) | Path::ArithmeticExpr(e) => expr_needs_quoting(e),
+        _ => false,
+    })
+}
+fn expr_needs_quoting(e: &Expr) -> bool {
+    match e {
+        Expr::Paths(ps) => paths_need_quoting(ps),
+        Expr::Value(v) => matches!(&**v, PathValue::String(s) if quoted_needs_escape(s)),
+        Expr::BinaryOp { left, right, .. } => expr_needs_quoting(left) || expr_needs_quoting(right),
+        Expr::ArithmeticFunc(ArithmeticFunc::Unary { operand, .. }) => expr_needs_quoting(operand),
+        Expr::ArithmeticFunc(ArithmeticFunc::Binary { left, right, .. }) => expr_needs_quoting(left) || expr_needs_quoting(right),
+        Expr::FilterFunc(FilterFunc::Exists(ps)) => paths_need_quoting(ps),
+    }
+}
+
 pub fn exec(f: &[&str]) -> Option<String> {
     Some(match f {
         ["jpparse", h] => match parse_json_path(&unhex(h)?) {
@@ -119,6 +146,8 @@ pub fn exec(f: &[&str]) -> Option<String> {
             let b = unhex(h)?;
             match parse_json_path(&b) {
                 Ok(jp) => {
+                    // the property claims the round trip only when nothing needs quoting or escaping
+                    if paths_need_quoting(&jp.paths) { return Some("not-applicable".into()); }
                     let text = format!("{}", jp);
                     match parse_json_path(text.as_bytes()) {
                         Ok(jp2) => if jp2 == jp { "ok".into() } else { format!("MISMATCH reparsed {}", paths(&jp2.paths)) },
@@ -132,6 +161,11 @@ pub fn exec(f: &[&str]) -> Option<String> {
             let b = unhex(h)?;
             match parse_key_paths(&b) {
                 Ok(kp) => {
+                    if kp.paths.iter().any(|k| match k {
+                        KeyPath::QuotedName(s) => quoted_needs_escape(s),
+                        KeyPath::Name(s) => raw_needs_quoting(s) || s.parse::<i32>().is_ok() || s.starts_with('+'),
+                        KeyPath::Index(_) => false,
+                    }) { return Some("not-applicable".into()); }
                     let text = format!("{}", kp);
                     match parse_key_paths(text.as_bytes()) {
                         Ok(kp2) => if kp2 == kp { "ok".into() } else { format!("MISMATCH reparsed {}", keypaths(&kp2.paths)) },
